@@ -21,7 +21,7 @@ PROFILE = {
     "max_delay_ticks": 16,
     "multi_call": (1, 4),
 }
-ENTRIES = [f"{a}Policy{v}.{m}" for a in ("", "Async") for v in ("", ".noretry") for m in ("call", "execute")] + ["Policy.context.call", "AsyncPolicy.context.call"]
+ENTRIES = [f"{a}Policy{v}.{m}" for a in ("", "Async") for v in ("", ".noretry") for m in ("call", "execute")] + ["Policy.context.call", "AsyncPolicy.context.call", "Policy.proxy.call", "AsyncPolicy.proxy.call", "Policy.proxy.execute", "AsyncPolicy.proxy.execute"]
 CANCEL_TYPES = ("KeyboardInterrupt", "SystemExit", "CancelledError", "GeneratorExit")
 
 
